@@ -163,10 +163,22 @@ pub enum Obj {
 
 impl Obj {
     pub fn make(dec: bool, kind: Kind, eng: Eng, c: Cfg) -> Result<Obj, Error> {
+        // None, Some(Work::new()) and Some(Work::default()) are all "no working space yet"
+        let variant = (c.k + c.r + c.b / 2) % 3;
         Ok(if dec {
-            Obj::Dec(make_dec(kind, eng, c.k, c.r, c.b, None)?)
+            let work = match variant {
+                0 => None,
+                1 => Some(reed_solomon_simd::rate::DecoderWork::new()),
+                _ => Some(reed_solomon_simd::rate::DecoderWork::default()),
+            };
+            Obj::Dec(make_dec(kind, eng, c.k, c.r, c.b, work)?)
         } else {
-            Obj::Enc(make_enc(kind, eng, c.k, c.r, c.b, None)?)
+            let work = match variant {
+                0 => None,
+                1 => Some(reed_solomon_simd::rate::EncoderWork::new()),
+                _ => Some(reed_solomon_simd::rate::EncoderWork::default()),
+            };
+            Obj::Enc(make_enc(kind, eng, c.k, c.r, c.b, work)?)
         })
     }
 
